@@ -1,10 +1,13 @@
 (* C02 - Linearization preserves objective values and optima.  Statements, `exact`, Print Assumptions only.
    STATUS: proved end to end for the affine fragment (C02_objective_affine, C02_optimum_affine: through the whole of
    `compile` the linear objective equals the source objective at every assignment, so optimal points and values
-   coincide); for non-affine models the target statement is kept visible and the proved parts are *_partial. *)
+   coincide) and for the arithmetic-with-abs fragment (C02_objective_abs: exactly the statement below; C02_optimum_abs:
+   an optimal point of the compiled model is feasible and optimal for the source with the same value - under a
+   minimised abs the linear objective only over-estimates, and the optimum is where the two meet); for models with min,
+   max or logic nodes the target statement is kept visible and the proved parts are *_partial. *)
 From Coq Require Import QArith Reals List String.
 From Rooc Require Import Base.XQ Model.Exp Model.Sem Model.Bounds Model.Linearize Model.Spec
-  Proof.PublishedCompile Proof.LinAffine Proof.ArmLemmas Proof.CompileAffine.
+  Proof.PublishedCompile Proof.LinAffine Proof.ArmLemmas Proof.CompileAffine Proof.CompileAbs.
 Import ListNotations.
 Local Close Scope Q_scope.
 Local Open Scope R_scope.
@@ -40,6 +43,21 @@ Proof.
     rewrite <- (Ob rho v Ev), <- (Ob rho' v' Ev'). apply Best. apply Eq. exact S'.
 Qed.
 
+(* ---- proved end to end on the arithmetic-with-abs fragment (premises: Props/C01.v, abs_model): the full statement *)
+Theorem C02_objective_abs :
+  forall (m : model) (L : linmodel), abs_model m -> compile m = inr L ->
+    forall rho v, sat_model m rho -> ev rho (m_obj m) = Some v ->
+      (forall sigma, agree_on (map fst (m_domain m)) rho sigma -> sat_linear L sigma -> better_eq (m_dir m) v (lin_objective L sigma))
+      /\ (exists sigma, agree_on (map fst (m_domain m)) rho sigma /\ sat_linear L sigma /\ lin_objective L sigma = v).
+Proof. exact compile_abs_objective. Qed.
+Theorem C02_optimum_abs :
+  forall (m : model) (L : linmodel) (sigma : string -> R), abs_model m -> compile m = inr L ->
+    sat_linear L sigma -> (forall tau, sat_linear L tau -> better_eq (m_dir m) (lin_objective L sigma) (lin_objective L tau)) ->
+    m_dir m <> DSatisfy ->
+    sat_model m sigma /\ ev sigma (m_obj m) = Some (lin_objective L sigma) /\
+    forall rho v, sat_model m rho -> ev rho (m_obj m) = Some v -> better_eq (m_dir m) (lin_objective L sigma) v.
+Proof. exact compile_abs_optimum. Qed.
+
 (* ---- proved: for an affine objective the linear objective (coefficients and constant offset) equals the
    source objective at every real assignment, whatever the direction *)
 Theorem C02_affine_objective_partial :
@@ -60,5 +78,7 @@ Proof. exact min_onesided_relax. Qed.
 
 Print Assumptions C02_objective_affine.
 Print Assumptions C02_optimum_affine.
+Print Assumptions C02_objective_abs.
+Print Assumptions C02_optimum_abs.
 Print Assumptions C02_affine_objective_partial.
 Print Assumptions C02_abs_onesided_partial.
